@@ -42,30 +42,72 @@ def G(tag, invs=None, **kw):
     return {"type": "gen", "tag": tag, "consts": c, "invs": (invs if invs is not None else THEOREMS) + ["Emit"]}
 
 
+TOKBASE = {"Mode": '"tok"', "Toks": '"core"', "MaxToks": 4, "Dialects": "{TRUE}", "FlagAlpha": '"std"',
+           "LitFlags": '"all"', "Alpha": "{97, 98}", "MaxLen": 2, "Repl2": "<-ReplSpan"}
+
+
+def K(tag, invs=None, **kw):
+    """token-string / flag-string / literal generators (MCTok.tla)"""
+    c = dict(TOKBASE)
+    c.update(kw)
+    return {"type": "gen", "tag": tag, "module": "MCTok.tla", "init": "TInit", "next": "TNext", "consts": c,
+            "invs": (invs or []) + ["EmitTok"]}
+
+
+def R(tag, maxrepl):
+    return {"type": "gen", "tag": tag, "module": "MCRepl.tla", "init": "RInit", "next": "RNext",
+            "consts": {"MaxRepl": maxrepl, "Alpha": "{97}", "MaxLen": 0, "Repl2": "<-ReplSpan"},
+            "invs": ["T12_ReplLaw", "EmitRepl"]}
+
+
+def T(tag, profile, nq, nt, mode="cases", unopt=False):
+    return {"type": "trace", "tag": tag, "profile": profile, "count": (nq, nt), "mode": mode, "unopt": unopt}
+
+
+SUITE = {"type": "suite", "tag": "suite"}
+
+
 # quick / thorough stage lists --------------------------------------------------------------
 def plan(prop, tier):
     q = tier == "quick"
     if prop == "C01":
         return [G("sem", MaxSize=4 if q else 5, MaxLen=3 if q else 4),
                 G("flags", Leaves="<-LvAnch", Quants="<-QSmall", MaxSize=3 if q else 4, FlagSets="<-AllFlags",
-                  Alpha="{97, 10}", MaxLen=3)]
+                  Alpha="{97, 10}", MaxLen=3),
+                T("rand", "general", 2000, 40000)] + ([] if q else [SUITE])
     if prop == "C02":
         return [G("prio", Leaves="<-LvCore", Quants="<-QAll", MaxSize=4 if q else 5, MaxLen=3 if q else 4),
                 G("astral", Leaves="<-LvAstral", Quants="<-QSmall", MaxSize=3 if q else 4, Alpha="{66560, 769, 97}",
-                  MaxLen=3)]
+                  MaxLen=3),
+                T("rand", "spans", 1500, 30000), T("astralr", "astral", 500, 10000)]
     if prop == "C03":
         return [G("caps", Leaves="<-LvAB", Quants="<-QSmall", MaxSize=5 if q else 6, MaxGroups=3, Repl2="<-ReplGroups",
                   MaxLen=3 if q else 4),
                 G("caps12", Leaves="<-LvG12", Quants="<-QOptOnly", MaxSize=2, MaxGroups=13, Repl2="<-ReplG12", MaxLen=3,
-                  invs=["T1_RoundTrip", "T3_Leftmost"])]
+                  invs=["T1_RoundTrip", "T3_Leftmost"]),
+                T("rand", "groups", 2000, 40000)]
     if prop == "C04":
         return [G("part", Leaves="<-LvCore", Quants="<-QSmall", MaxSize=4 if q else 5, MaxLen=3 if q else 4,
                   Variants='{"base", "xsd"}'),
                 G("astral", Leaves="<-LvAstral", Quants="<-QSmall", MaxSize=3 if q else 4, Alpha="{66560, 769, 97}",
-                  MaxLen=3, Variants='{"base", "xsd"}')]
+                  MaxLen=3, Variants='{"base", "xsd"}'),
+                T("rand", "spans", 1000, 20000), T("astralr", "astral", 1000, 20000)] + ([] if q else [SUITE])
     if prop == "C06":
         return [G("loops", Leaves="<-LvLoop", Quants="<-QAll", MaxSize=4 if q else 5, Alpha="{97, 98, 10}",
-                  MaxLen=3, FlagSets="<-FlagsM")]
+                  MaxLen=3, FlagSets="<-FlagsM"),
+                T("rand", "loops", 2000, 40000)]
+    if prop == "C07":
+        return [K("tok", Toks='"core"', MaxToks=4 if q else 5),
+                K("wide", Toks='"wide"', MaxToks=3 if q else 4),
+                K("class", Toks='"class"', MaxToks=5 if q else 6),
+                K("flags", Mode='"flags"', MaxToks=3),
+                G("valid", Leaves="<-LvAll", Quants="<-QAll", MaxSize=3, MaxLen=1, invs=["T1_RoundTrip"]),
+                T("mut", "general", 2000, 40000, mode="mutants"), T("rand", "classes", 1000, 20000)]
+    if prop == "C13":
+        return [K("lit", Mode='"lit"', Toks='"meta"', MaxToks=2 if q else 3, invs=["T10_QLiteral"]),
+                T("rand", "repl", 1500, 30000)]
+    if prop == "C15":
+        return [R("repl", 3 if q else 4), T("rand", "repl", 2000, 40000)]
     if prop == "C11":
         return [G("ascii", Leaves="<-LvCase", Quants="<-QSmall", MaxSize=3 if q else 4, FlagSets="<-FlagsI",
                   Alpha="{97, 65, 66, 49}", MaxLen=3),
@@ -74,23 +116,30 @@ def plan(prop, tier):
                 G("greekcyr", Leaves="<-LvCaseGr", Quants="<-QSmall", MaxSize=3, FlagSets="<-FlagsI",
                   Alpha="{955, 923, 1073, 1041}", MaxLen=2 if q else 3),
                 G("deseret", Leaves="<-LvCaseDs", Quants="<-QSmall", MaxSize=3, FlagSets="<-FlagsI",
-                  Alpha="{66600, 66560, 97}", MaxLen=3)]
+                  Alpha="{66600, 66560, 97}", MaxLen=3),
+                T("rand", "case", 2000, 40000)]
     if prop == "C12":
         return [G("anch", Leaves="<-LvAnch", Quants="<-QBasicLazy", MaxSize=3 if q else 4, FlagSets="<-FlagsMS",
-                  Alpha="{97, 10, 13}", MaxLen=3 if q else 4)]
+                  Alpha="{97, 10, 13}", MaxLen=3 if q else 4),
+                T("rand", "anchors", 2000, 40000)]
     if prop == "C14":
         return [G("ws", Leaves="<-LvWs", Quants="<-QSmall", MaxSize=3 if q else 4, MaxLen=2, Variants='{"ws"}',
                   invs=["T1_RoundTrip", "T11_XStrip"])]
     if prop == "C16":
-        return [G("null", Leaves="<-LvSem", Quants="<-QAll", MaxSize=4 if q else 5, MaxLen=2 if q else 3)]
+        return [G("null", Leaves="<-LvSem", Quants="<-QAll", MaxSize=4 if q else 5, MaxLen=2 if q else 3),
+                T("rand", "general", 1500, 30000)]
     if prop == "C17":
-        return [G("dial", Leaves="<-LvDial", Quants="<-QSmall", MaxSize=3 if q else 4, MaxLen=3,
-                  Variants='{"base", "xsd"}', invs=THEOREMS + ["T13_Dialect"])]
+        return [K("tok", Toks='"wide"', MaxToks=3 if q else 4, Dialects="{TRUE, FALSE}"),
+                K("flags", Mode='"flags"', MaxToks=2 if q else 3, Dialects="{FALSE}"),
+                G("dial", Leaves="<-LvDial", Quants="<-QSmall", MaxSize=3 if q else 4, MaxLen=3,
+                  Variants='{"base", "xsd"}', invs=THEOREMS + ["T13_Dialect"]),
+                T("rand", "dialect", 2000, 40000)]
     if prop == "C19":
         return [G("bref", Leaves="<-LvBref", Quants="<-QSmall", MaxSize=5 if q else 6, MaxLen=4 if q else 5,
                   FlagSets="<-OnlyNoFlags"),
                 G("brefi", Leaves="<-LvBrefI", Quants="<-QBasic", MaxSize=4, MaxLen=3, FlagSets="<-FlagsI",
-                  Alpha="{97, 65, 98}")]
+                  Alpha="{97, 65, 98}"),
+                T("rand", "brefs", 2000, 40000)]
     return []
 
 
@@ -109,8 +158,9 @@ def run_check(prop, tier):
     for st in stages:
         tag = "%s_%s_%s" % (prop, tier, st["tag"])
         if st["type"] == "gen":
-            info, stats, viols = orch.tlc_gen_replay(tag, "MCGen.tla", st["consts"], st["invs"],
-                                                     also_unopt=st.get("also_unopt", False))
+            info, stats, viols = orch.tlc_gen_replay(tag, st.get("module", "MCGen.tla"), st["consts"], st["invs"],
+                                                     also_unopt=st.get("also_unopt", False),
+                                                     init=st.get("init", "GInit"), nxt=st.get("next", "GNext"))
             tot["states"] += info["distinct"]
             tot["transitions"] += info["states"]
             for k in ("behaviours", "cases", "calls", "unspec_cases", "indefinite_cases", "nontrivial", "skipped_jobs"):
@@ -125,16 +175,41 @@ def run_check(prop, tier):
             stage_info.append({"stage": st["tag"], "consts": {k: str(v) for k, v in st["consts"].items()},
                                "invariants": st["invs"], "tlc_states": info["distinct"], "wall_s": info["wall_s"],
                                "behaviours": stats["behaviours"]})
+        elif st["type"] in ("trace", "suite"):
+            if st["type"] == "trace":
+                n = st["count"][0] if tier == "quick" else st["count"][1]
+                d, rs = orch.record(tag, st["profile"], seed, n, st["mode"], st["unopt"])
+            else:
+                d, rs = orch.record_suite(tag)
+            tt, viols = orch.validate_traces(tag, d)
+            tot["states"] += tt["states"]
+            tot["transitions"] += tt["states"]
+            tot["trace_events"] = tot.get("trace_events", 0) + tt["lines"]
+            tot["trace_compared"] = tot.get("trace_compared", 0) + tt["compared"]
+            tot["trace_weak"] = tot.get("trace_weak", 0) + tt["weak"]
+            tot["trace_unspec"] = tot.get("trace_unspec", 0) + tt["unspec"]
+            tot["trace_jobs"] = tot.get("trace_jobs", 0) + rs.get("jobs", rs.get("tests_passed", 0))
+            tot["skipped_jobs"] += rs.get("skipped_jobs", 0)
+            samples += rs.get("samples", [])[:2]
+            for v in viols:
+                v["src"] = tag
+            allviol += viols
+            stage_info.append({"stage": st["tag"], "recorder": rs if st["type"] == "suite" else
+                               {k: rs[k] for k in ("profile", "mode", "seed", "jobs", "faults")},
+                               "events": tt["lines"], "compared": tt["compared"], "weak_clause_checks": tt["weak"],
+                               "unspec": tt["unspec"], "wall_s": tt["wall_s"]})
     mine = [v for v in allviol if v["kind"] in KINDS[prop]]
     nviol = orch.report(prop, mine, tier)
     cov = {"states": tot["states"], "transitions": tot["transitions"],
-           "traces_validated_against_impl": tot["behaviours"],
+           "traces_validated_against_impl": tot["behaviours"] + tot.get("trace_jobs", 0),
+           "trace_events_validated": tot.get("trace_events", 0), "trace_events_compared": tot.get("trace_compared", 0),
+           "trace_weak_clause_checks": tot.get("trace_weak", 0), "trace_events_unspec": tot.get("trace_unspec", 0),
            "samples": samples[:4] or [{"note": "no behaviour sampled"}],
            "evaluations": tot["calls"], "distinct_nontrivial": tot["nontrivial"],
            "rule": "behaviours are enumerated exhaustively by TLC inside the bounds of each stage; one behaviour = one "
                    "(pattern, flags, dialect) with every input up to the stage's length bound; non-trivial = pattern "
                    "text longer than one character; distinct by construction (TLC states)",
-           "exhaustive": True, "stages": stage_info, "cases": tot["cases"], "compared": tot["compared"],
+           "exhaustive": False, "exhaustive_part": "the gen stages (TLC enumeration inside the listed bounds)", "stages": stage_info, "cases": tot["cases"], "compared": tot["compared"],
            "mismatches_all_kinds": tot["mismatches"], "kinds_of_this_property": sorted(KINDS[prop]),
            "unspec_cases": tot["unspec_cases"], "indefinite_span_cases": tot["indefinite_cases"],
            "skipped_after_fault_cap": tot["skipped_jobs"]}
